@@ -378,6 +378,15 @@ CapExact ==
         /\ CodecOK(e, d, 65535, MaxBody(e, d)) /\ CodecOK(e, d, 0, 0)
 ASSUME Mut # "none" \/ CapExact
 
+\* and every runt header (size field below the opcode width, either form) parses to "header only"
+RuntCodec ==
+    \A e \in Exps, d \in Dirs : \A s \in 0..(OW(d) - 1) : \A lg \in BOOLEAN :
+        (lg => Var3(e, d)) =>
+            LET h == (IF lg THEN <<128, 0, s>> ELSE <<0, s>>) \o LE(OW(d), ForeignOp(d))
+                p == ParseHeader(e, d, h)
+            IN p.wf /\ p.hlen = Len(h) /\ p.size = s /\ p.opcode = ForeignOp(d) /\ BodyFrom(e, d, p) = 0
+ASSUME Mut # "none" \/ RuntCodec
+
 \* the caps of the header forms, for the request generator of the random driver (impl -> spec)
 EmitCaps ==
     Mode = "lemma" =>
